@@ -207,6 +207,44 @@ func c25FieldDiff(a, b webrtc.ICECandidate) string {
 	return ""
 }
 
+// c25DiffICE compares a webrtc candidate with the getters of a pion/ice candidate.
+func c25DiffICE(i ice.Candidate, c webrtc.ICECandidate) string {
+	raddr, rport := "", 0
+	if r := i.RelatedAddress(); r != nil {
+		raddr, rport = r.Address, r.Port
+	}
+	proto := webrtc.ICEProtocolUDP
+	if i.NetworkType().NetworkShort() == "tcp" {
+		proto = webrtc.ICEProtocolTCP
+	}
+	typ := map[ice.CandidateType]webrtc.ICECandidateType{ice.CandidateTypeHost: webrtc.ICECandidateTypeHost,
+		ice.CandidateTypeServerReflexive: webrtc.ICECandidateTypeSrflx, ice.CandidateTypePeerReflexive: webrtc.ICECandidateTypePrflx,
+		ice.CandidateTypeRelay: webrtc.ICECandidateTypeRelay}[i.Type()]
+	switch {
+	case i.Foundation() != c.Foundation:
+		return "foundation"
+	case i.Component() != c.Component:
+		return "component"
+	case proto != c.Protocol:
+		return "protocol"
+	case i.Priority() != c.Priority:
+		return "priority"
+	case i.Address() != c.Address:
+		return "address"
+	case i.Port() != int(c.Port):
+		return "port"
+	case typ != c.Typ:
+		return "type"
+	case raddr != c.RelatedAddress:
+		return "related-address"
+	case rport != int(c.RelatedPort):
+		return "related-port"
+	case i.TCPType().String() != c.TCPType:
+		return "tcptype"
+	}
+	return ""
+}
+
 func c25UfragOf(i ice.Candidate) (string, bool) {
 	e, ok := i.GetExtension("ufrag")
 	return e.Value, ok
@@ -303,6 +341,10 @@ func c25RunCand(in c25Cand) (V, Verdict) {
 	}
 	if d := c25FieldDiff(c0, c1); d != "" {
 		return obs, Fail("cand-field-"+d+"-changed", fmt.Sprintf("%q: %+v came back as %+v", init.Candidate, c0, c1))
+	}
+	// ... and the same as the candidate pion/ice held in the first place
+	if d := c25DiffICE(i0, c1); d != "" {
+		return obs, Fail("cand-field-"+d+"-changed", fmt.Sprintf("%q: ice candidate %s came back as %+v", init.Candidate, i0.Marshal(), c1))
 	}
 	if c0.VerifExtensions() != c1.VerifExtensions() {
 		sig := "cand-ext-changed"
